@@ -182,16 +182,16 @@ class BuilderMachine(LoggedMachine):
 
         # -- differential against the fresh builder
         if got[0] != ref[0]:
-            ctx.fail('independence.outcome', 'mismatch', 'base.fly', where,
+            ctx.fail('independence', 'mismatch', 'base.fly', where,
                      f'{kind}: history builder -> {got[0]} {got[1]!r}, fresh builder -> {ref[0]} {ref[1]!r}')
         elif got[0] == 'exc':
             if type(got[1]) is not type(ref[1]) or str(got[1]) != str(ref[1]):
-                ctx.fail('independence.exception', 'mismatch', 'base.fly', where,
+                ctx.fail('independence', 'mismatch', 'base.fly', where,
                          f'{kind}: history builder raised {got[1]!r}, fresh builder raised {ref[1]!r}')
         else:
             k = diff_snapshots(snapshot(got[1]), snapshot(ref[1]))
             if k is not None:
-                ctx.fail('independence.values', 'mismatch', 'base.fly', where,
+                ctx.fail('independence', 'mismatch', 'base.fly', where,
                          f'{kind}: field {k} differs between the history builder and a fresh builder '
                          f'({getattr(got[1], k) if k != "len" else len(got[1])!r} vs '
                          f'{getattr(ref[1], k) if k != "len" else len(ref[1])!r})')
